@@ -164,8 +164,9 @@ class NativeContract:
                     self.point_clauses.setdefault(ln, []).append(cl)
         for label, pat, exprs in con.options.get("asserts", []):
             lines = [n.lineno for n in ast.walk(self.fn_node)
-                     if isinstance(n, ast.stmt) and not isinstance(n, (ast.If, ast.While, ast.For, ast.Try, ast.With, ast.FunctionDef))
-                     and " ".join(pat.split()) in " ".join(self.modinfo.segment(n).split())]
+                     if isinstance(n, ast.stmt) and not isinstance(n, (ast.While, ast.For, ast.Try, ast.With, ast.FunctionDef))
+                     and " ".join(pat.split()) in (("if " + " ".join(self.modinfo.segment(n.test).split()) + ":") if isinstance(n, ast.If)
+                                                   else " ".join(self.modinfo.segment(n).split()))]
             for j, ex in enumerate(exprs):
                 cl = Clause(f"{pfx}:assert@{label}#{j + 1}", "assert", ex, lines)
                 for ln in lines:
